@@ -555,6 +555,109 @@ where
                     tracing::warn!("storage rollback failed");
                 }
 """)]),
+    ("c15-kp-kind-not-checked", ["C15"], [], [(CORE + "key_packages.rs", """        if event.kind != Kind::MlsKeyPackage {
+            return Err(Error::UnexpectedEvent {
+                expected: Kind::MlsKeyPackage,
+                received: event.kind,
+            });
+        }
+
+        // Validate tag format before parsing the key package content.""", """        // Validate tag format before parsing the key package content.""")]),
+    ("c15-kp-signer-not-compared", ["C15"], [], [(CORE + "key_packages.rs", """        if credential_identity != event.pubkey {
+            return Err(Error::KeyPackageIdentityMismatch {
+                credential_identity: credential_identity.to_hex(),
+                event_signer: event.pubkey.to_hex(),
+            });
+        }
+""", """        let _ = credential_identity;
+""")]),
+    ("c15-kp-ref-not-recomputed", ["C15"], [], [(CORE + "key_packages.rs", """        self.validate_key_package_tags(event, Some(&key_package))?;
+
+        Ok(key_package)""", """        Ok(key_package)""")]),
+    ("c15-kp-i-tag-mismatch-accepted", ["C15"], [], [(CORE + "key_packages.rs", """            if i_tag_bytes != computed_ref.as_slice() {
+                return Err(Error::KeyPackage(
+                    "KeyPackageRef in i tag does not match computed value from content".to_string(),
+                ));
+            }""", """            let _ = (i_tag_bytes, computed_ref);""")]),
+    ("c15-kp-any-protocol-version", ["C15"], [], [(CORE + "key_packages.rs", """        if *version_value != "1.0" {
+            return Err(Error::KeyPackage(format!(
+                "Unsupported protocol version: {}. Only version 1.0 is supported per MIP-00",
+                version_value
+            )));
+        }
+""", """        let _ = version_value;
+""")]),
+    ("c15-kp-empty-relays-accepted", ["C15"], [], [(CORE + "key_packages.rs", """        if relay_slice.len() <= 1 {
+            return Err(Error::KeyPackage(
+                "Relays tag must have at least one relay URL".to_string(),
+            ));
+        }
+""", "")]),
+    ("c15-kp-encoding-tag-defaulted", ["C15"], [], [(CORE + "key_packages.rs", """        let encoding = ContentEncoding::from_tags(event.tags.iter())
+            .ok_or_else(|| Error::KeyPackage("Missing required encoding tag".to_string()))?;
+
+        let key_package = self.parse_serialized_key_package(&event.content, encoding)?;""", """        let encoding = ContentEncoding::Base64;
+
+        let key_package = self.parse_serialized_key_package(&event.content, encoding)?;""")]),
+    ("c15-welcome-kind-not-checked", ["C15"], [], [(CORE + "welcomes.rs", """        if event.kind != Kind::MlsWelcome {
+            return Err(Error::InvalidWelcomeMessage);
+        }
+
+        // 2. Validate minimum number of tags""", """        // 2. Validate minimum number of tags""")]),
+    ("c03-evicted-group-stays-active", ["C03"], [], [(CORE + "messages/commit.rs", "                group.state = group_types::GroupState::Inactive;\n                self.save_group_record(group)?;", "                self.save_group_record(group)?;")]),
+    ("c03-export-after-eviction", ["C03"], [], [(CORE + "messages/commit.rs", """        // Check if the local member was removed by this commit
+        if mls_group.own_leaf().is_none() {
+            return self.handle_local_member_eviction(&group_id, event);
+        }
+
+        // Save exporter secret for the new epoch
+        self.exporter_secret(&group_id)?;
+""", """        // Save exporter secret for the new epoch
+        self.exporter_secret(&group_id)?;
+
+        // Check if the local member was removed by this commit
+        if mls_group.own_leaf().is_none() {
+            return self.handle_local_member_eviction(&group_id, event);
+        }
+""")]),
+    ("c05-update-proposal-queued", ["C05"], [], [(CORE + "messages/proposal.rs", """                                    "Ignoring Update proposal - self-update handling not yet implemented (see issue #59)"
+                                );
+
+                                self.mark_processed(event, &group_id, mls_group.epoch().as_u64())?;
+""", """                                    "Ignoring Update proposal - self-update handling not yet implemented (see issue #59)"
+                                );
+
+                                self.store_pending_proposal(
+                                    mls_group,
+                                    event,
+                                    staged_proposal,
+                                    &group_id,
+                                )?;
+""")]),
+    ("c14-secret-debug-prints-value", ["C14"], [], [(TR + "secret.rs", """        // Don't leak secret in debug output
+        write!(f, "Secret(***)")""", """        write!(f, "Secret({:02x?})", &self.0 as *const T as usize)""")]),
+    ("c17-aad-drops-scheme-label", ["C17"], [], [(CORE + "encrypted_media/crypto.rs", """    let mut aad = Vec::new();
+    aad.extend_from_slice(scheme_label);
+    aad.push(0x00);""", """    let mut aad = Vec::new();
+    let _ = scheme_label;
+    aad.push(0x00);""")]),
+    ("c17-hkdf-ikm-is-hash", ["C17"], [], [(CORE + "encrypted_media/crypto.rs", "    let hk = Hkdf::<Sha256>::new(None, exporter_secret.as_ref());", "    let hk = Hkdf::<Sha256>::new(None, original_hash.as_ref());")]),
+    ("c17-scheme-label-unchecked", ["C17"], [], [(CORE + "encrypted_media/crypto.rs", """    let scheme_label = get_scheme_label(scheme_version)?;
+    let context = build_hkdf_context(scheme_label, original_hash, mime_type, filename, b"key");
+""", """    let scheme_label = get_scheme_label(scheme_version).unwrap_or(b"mip04-v2");
+    let context = build_hkdf_context(scheme_label, original_hash, mime_type, filename, b"key");
+""")]),
+    ("c20-prune-under-second-lock", ["C20"], [], [(CORE + "epoch_snapshots.rs", """        queue.push_back(snapshot);
+
+        // Prune if needed (deferred slightly, or do it now)""", """        queue.push_back(snapshot);
+        drop(inner);
+        let mut inner = self.inner.lock().unwrap();
+        let queue = inner.snapshots.entry(group_id.clone()).or_default();
+
+        // Prune if needed (deferred slightly, or do it now)""")]),
+    ("c11-manager-never-lists-storage", ["C11"], [], [(CORE + "epoch_snapshots.rs", """        let stored_snapshots = match storage.list_group_snapshots(group_id) {
+            Ok(snapshots) => snapshots,""", """        let stored_snapshots: Vec<(String, u64)> = match storage.prune_expired_snapshots(0).map(|_| Vec::new()) {
+            Ok(snapshots) => snapshots,""")]),
     ("c20-no-prune-after-hydration", ["C20"], [], [(CORE + "epoch_snapshots.rs", """        // Enforce retention limit after hydration
         while queue.len() > self.retention_count {
             if let Some(old_snap) = queue.pop_front() {
